@@ -8,7 +8,8 @@
    recvRoutines live in one process: a panic that leaves one of them ends them all.
 
    One action per critical section of connection.go:
-     Send(k,c,n)      Channel.sendBytes / trySendBytes   (queue insert or refusal)
+     Send(k,c,n,z)    Channel.sendBytes / trySendBytes   (queue insert or refusal; z: a zero-length
+                      message is passed as a nil slice instead of an empty one)
      SendPacket(k,c)  MConnection.sendPacketMsg          (pull loop + nextPacketMsg + write)
      SendPing(k)      remote sendRoutine, pingTimer case: writes a ping, arms its pong timer
      Inject(k,p)      the adversary writes packet p
@@ -52,14 +53,21 @@ Init == /\ conn = [k \in Conns |-> NewConn]
 
 Alive == \A k \in Conns : ~conn[k].r.crashed
 
-Send(k, c, len) ==
+\* A zero-length message can be handed to Send/TrySend in two representations: an empty non-nil
+\* slice or a NIL slice.  The caller (adversarial environment) chooses; the design makes no
+\* difference between them -- both are the message << >>, accepted, packetised as one empty EOF
+\* packet and delivered exactly once.  The choice is recorded in the action label only (it is
+\* not state), so every schedule derived from this model carries it to the real code.
+ZeroReps(len) == IF len = 0 THEN {FALSE, TRUE} ELSE {FALSE}
+
+Send(k, c, len, nilrep) ==
   /\ Alive /\ k \in Honest
   /\ Len(conn[k].acc[c]) < MaxMsgs
   /\ LET m == Msg(c, Len(conn[k].acc[c]) + 1, len)
          e == Enqueue(Cfg, conn[k].s, conn[k].aup, c, m)
      IN /\ conn' = [conn EXCEPT ![k].s = e.s,
                                 ![k].acc[c] = IF e.ok THEN Append(@, m) ELSE @]
-        /\ act' = [name |-> "Send", k |-> k, ch |-> c, len |-> len, ok |-> e.ok]
+        /\ act' = [name |-> "Send", k |-> k, ch |-> c, len |-> len, ok |-> e.ok, nilrep |-> nilrep]
 
 SendPacket(k, c) ==
   /\ Alive /\ k \in Honest
@@ -114,7 +122,7 @@ NoticeClose(k) ==
   /\ act' = [name |-> "NoticeClose", k |-> k, ch |-> 0, len |-> 0, ok |-> FALSE]
 
 Next ==
-  \/ \E k \in Honest, c \in CS(Cfg), n \in Sizes : Send(k, c, n)
+  \/ \E k \in Honest, c \in CS(Cfg), n \in Sizes : \E z \in ZeroReps(n) : Send(k, c, n, z)
   \/ \E k \in Honest, c \in CS(Cfg) : SendPacket(k, c)
   \/ \E k \in Honest : SendPing(k)
   \/ \E k \in Hostile : \E p \in HostilePackets(Cfg) : Inject(k, p)
